@@ -114,7 +114,7 @@ def run(tier):
                 # WHERE o.f IS NULL with the parent object absent is a pinned finding (NestedIsNullParentAbsent)
                 scen.append(null_scen({"t": "path", "p": ["o", "f"]}, nest_rows[:3] if carrier == "where" else nest_rows, carrier, neg, mode))
     # columns whose NAME contains an operator word (note / Notes / annotation contain "not", nullable "null", island "is"): the name decides nothing
-    for name in ("note", "Notes", "annotation", "nullable", "island", "s_not_null"):
+    for name in ("note", "Notes", "annotation", "nullable", "island", "s_not_null", "is_tag", "or_code", "IS_x", "not_a", "like_b"):
         rows_n = [{"id": 1, name: "a"}, {"id": 2, name: None}, {"id": 3}, {"id": 4, name: ""}]
         for carrier in ("where", "case"):
             for neg in (False, True):
@@ -125,6 +125,22 @@ def run(tier):
     for k, pat in enumerate(qpats):
         for carrier in ("where", "case", "selpar"):
             scen.append(like_scen(pat, qtexts, carrier, "sync" if k % 2 else "emit"))
+    # LIKE conditions over columns whose names begin with an operator word and an underscore (is_tag, or_code)
+    for name in ("is_tag", "or_code", "like_b"):
+        for k, pat in enumerate(["a%", "%b", "a_"]):
+            for carrier in ("where", "case", "selpar"):
+                sc = like_scen(pat, ["ab", "b", "a", "xb"] + ([None] if carrier != "selpar" else []), carrier, "sync" if k % 2 else "emit")
+                sc = json.loads(json.dumps(sc).replace('"c": "s"', '"c": "%s"' % name))
+                sc["sql"] = sc["sql"].replace("s LIKE", name + " LIKE")
+                sc["rows"] = [{(name if kk == "s" else kk): vv for kk, vv in r.items()} for r in sc["rows"]]
+                sc["norename"] = True
+                scen.append(sc)
+    # literal characters outside ASCII in patterns and texts (the wildcards stand for ASCII characters here: the engine's "_" is one BYTE)
+    upats = ["é_b%", "%é%7%", "传感器_%", "café-_-%", "%器", "é%"]
+    utexts = ["éab", "éxbzz", "xé17", "传感器1号", "传感器", "café-x-y", "cafe-x-y", "温度传感器", "é", "eab", "é7"]
+    for k, pat in enumerate(upats):
+        for carrier in ("where", "case", "selpar"):
+            scen.append(dict(like_scen(pat, utexts, carrier, "sync" if k % 2 else "emit"), norename=True))
     # CASE carrier with NULL texts for the patterns that a stringified NULL could match by accident
     for k, pat in enumerate(["%", "%%", "_____", "<%", "%i%", "%l>", "<nil>", "<___>", "nil", "%n%", "NULL", "%U%"]):
         scen.append(like_scen(pat, ["a", None, "<nil>", None, "null", "NULL"], "case", "sync" if k % 2 else "emit"))
